@@ -41,6 +41,9 @@ func (v *View) Print(n int) error {
 		begin = 0
 	}
 	end := begin + n
+	if l := v.Lines.Len(); end > l {
+		end = l
+	}
 
 	for i := begin; i < end; i++ {
 		fmt.Print(v.Format(i))
